@@ -1,6 +1,7 @@
 (* C07 - Corrupted objects are detected and dropped, never served; intact ones unharmed.
    Only statements here; proofs in Proofs/IntegrityProofs*.v, model in Model/Integrity.v, whose
-   decision structure for both check bodies is regenerated from the source (Gen/Check.v).
+   decision structure for both check bodies is regenerated from the source (Gen/Check.v) and whose
+   state-row validity decision is the translated State._get (Gen/State.v; tie lemma st_hit_spec).
 
    Vocabulary (Proofs/IntegrityProofs.v), for an arbitrary digest H, store and state database:
      named_ok alg o ob    the bytes of ob hash (under alg) to the name o, compared as check does
@@ -14,12 +15,11 @@
      Intact w o ob        o |-> ob in the store, named_ok, honest_for
    A same-length rewrite that restores the mtime under a warm row falsifies honest_for: it is
    outside the property's quantifier (DESIGN 6/C07 `not a finding`).
-   Deviation from DESIGN: the theorems are one-step statements from an arbitrary world (any store,
-   any state database satisfying the hypothesis for the object in question) rather than over a
-   history type; C07_history_partial adds that the hypothesis is kept along every history of
-   environment steps and queries WITHOUT add (preservation of honesty by add is not proved). *)
+   The one-step theorems start from an arbitrary world (any store, any state database satisfying
+   the hypothesis for the object in question); C07_history shows the hypothesis is an invariant of
+   every history, add included, so they apply at every point of every history. *)
 From Coq Require Import NArith List Bool.
-From DvcData Require Import Base.Val Gen.Check Model.Integrity Proofs.IntegrityProofs Proofs.IntegrityProofsFold Proofs.IntegrityProofsAdd Proofs.IntegrityProofsExamples Proofs.IntegrityProofsHist.
+From DvcData Require Import Base.Val Gen.Check Model.StateDbBase Model.Integrity Proofs.IntegrityProofs Proofs.IntegrityProofsFold Proofs.IntegrityProofsAdd Proofs.IntegrityProofsAddInv Proofs.IntegrityProofsExamples Proofs.IntegrityProofsHist.
 Import ListNotations.
 Open Scope N_scope.
 
@@ -85,10 +85,32 @@ Theorem C07_intact_bystander : forall H w o ob o', Intact H w o ob ->
 Proof. intros H w o ob o' I. apply (IN_step H w o o'). now exists ob. Qed.
 Print Assumptions C07_intact_bystander.
 
-(* along every history of token-changing tampers, deletions, truthful re-hashes, wipes, checks,
-   existence queries and checkouts (no add), from any world whose rows are honest, the rows stay
-   honest: the hypothesis of the theorems above holds at every point for every object *)
-Theorem C07_history_partial : forall H w h,
-  (forall o, honest H w o) -> ticks H w h -> forall o, honest H (exec H w h) o.
-Proof. exact history_honest. Qed.
-Print Assumptions C07_history_partial.
+(* The invariant  Inv w := every state row honest /\ every write-protected Local object named_ok
+   /\ a fresh copy is not created write-protected  holds along EVERY history (add included) whose
+   steps satisfy the side conditions [tick_ok]: tampers change the token w.r.t. the state row (or
+   leave bytes and token alone) and do not leave mismatching content write-protected; foreign rows
+   are truthful; adds have distinct ids and fresh tokens for the copies and - without
+   verification - honest sources onto named_ok objects.  It holds for the empty store. *)
+Theorem C07_history : forall H w h, Inv H w -> ticks H w h -> Inv H (exec H w h).
+Proof. exact history_inv. Qed.
+Print Assumptions C07_history.
+
+Theorem C07_history_empty : forall H c a s v m h,
+  (c = Local -> S_IMODE m <> PROTECTED) -> ticks H (W c a s v m [] []) h ->
+  Inv H (exec H (W c a s v m [] []) h).
+Proof. intros. apply history_inv; auto. now apply empty_inv. Qed.
+Print Assumptions C07_history_empty.
+
+(* hence, at any point of any such history, every mismatching unprotected object is Tampered and
+   every matching object is Intact: C07_reject / _exists / _checkout_refuses / _intact apply *)
+Theorem C07_history_tampered : forall H w h o ob, Inv H w -> ticks H w h ->
+  lookup o (w_objs (exec H w h)) = Some ob -> ~ named_ok H (w_alg (exec H w h)) o ob ->
+  S_IMODE (o_mode ob) <> PROTECTED -> Tampered H (exec H w h) o ob.
+Proof. exact history_tampered. Qed.
+Print Assumptions C07_history_tampered.
+
+Theorem C07_history_intact : forall H w h o ob, Inv H w -> ticks H w h ->
+  lookup o (w_objs (exec H w h)) = Some ob -> named_ok H (w_alg (exec H w h)) o ob ->
+  Intact H (exec H w h) o ob.
+Proof. exact history_intact. Qed.
+Print Assumptions C07_history_intact.
